@@ -4897,6 +4897,7 @@ func ruleHandlerLoopsBounded(c *Ctx) {
 		for i, li := range g.loops() {
 			n++
 			floatExit := false
+			codeExit := false
 			for blk := range li.Body {
 				iff, ok := blk.Instrs[len(blk.Instrs)-1].(*ssa.If)
 				if !ok {
@@ -4937,8 +4938,39 @@ func ruleHandlerLoopsBounded(c *Ctx) {
 				if hasFloat(iff.Cond, 0) {
 					floatExit = true
 				}
+				// …or on an instruction word fetched in the loop: the loop follows byte-code (a chain or a
+				// cycle of jumps) inside one dispatch
+				var onCodeWord func(v ssa.Value, d int) bool
+				onCodeWord = func(v ssa.Value, d int) bool {
+					if d > 6 {
+						return false
+					}
+					if u, ok := v.(*ssa.UnOp); ok && u.Op == token.MUL {
+						if ia, ok := u.X.(*ssa.IndexAddr); ok {
+							if sl, ok := ia.X.Type().Underlying().(*types.Slice); ok {
+								if bt, ok := sl.Elem().Underlying().(*types.Basic); ok && bt.Kind() == types.Uint32 {
+									return true
+								}
+							}
+						}
+					}
+					in, ok := v.(ssa.Instruction)
+					if !ok {
+						return false
+					}
+					for _, op := range in.Operands(nil) {
+						if *op != nil && onCodeWord(*op, d+1) {
+							return true
+						}
+					}
+					return false
+				}
+				if onCodeWord(iff.Cond, 0) {
+					codeExit = true
+				}
 			}
 			c.Sites++
+			c.check(!codeExit, R, fmt.Sprintf("handler[%s]:loop#%d:does-not-follow-byte-code", oi.Name, i+1), p.pos(oi.Handler.Pos()), "the loop's exit does not depend on an instruction word fetched in the loop", fmt.Sprintf("the handler of %s contains a loop that goes on while the instruction word it fetches satisfies a test: it follows byte-code inside one dispatch — a jump that lands on itself (`while true do end`, `::l:: goto l`) spins there for ever, between two polls of the context", oi.Name))
 			c.check(!floatExit, R, fmt.Sprintf("handler[%s]:loop#%d:bounded-by-operands", oi.Name, i+1), p.pos(oi.Handler.Pos()), "the loop's exit does not compare Lua numbers", fmt.Sprintf("the handler of %s contains a loop whose exit compares floating-point values: the iterations of a script-level loop run inside one dispatch, between two polls of the context — `for i = 1, 1e13 do end` cannot be cancelled and `for i = 1, 0, 0 do end` never returns", oi.Name))
 		}
 	}
